@@ -161,7 +161,12 @@ def prune_cache(keep=6):
         return
     ds = sorted((os.path.getmtime(os.path.join(base, d)), d) for d in os.listdir(base))
     import shutil
-    for _, d in ds[:-keep]:
+    now = time.time()
+    for mt, d in ds[:-keep]:
+        # never under another check that is running at the same time (checks may be started in parallel): a directory that was
+        # written in the last half hour may be in use
+        if now - mt < 1800:
+            continue
         shutil.rmtree(os.path.join(base, d), ignore_errors=True)
 
 
